@@ -596,6 +596,9 @@ class Evaluator:
                 except TypeError:
                     return list(v)
             return list(v)
+        if isinstance(v, Obj) and v._cls is not None and self.repo is not None and self.repo.find_method(v._cls, "__iter__") is not None:
+            # a class of the repository that defines __iter__ (return iter(<container>)): iterate what it hands out
+            return self._iterate(self.call_method(v, "__iter__", []), node)
         raise NotEvaluable(f"cannot iterate {type(v).__name__} in {ast.unparse(node)[:60]}")
 
     def _slice(self, s: ast.expr):
@@ -1095,6 +1098,8 @@ class Evaluator:
                 return self._sorted(list(self._iterate(args[0], n)), n)
             if f == "reversed":
                 return list(reversed(self._iterate(args[0], n)))
+            if f == "iter" and len(args) == 1:
+                return list(self._iterate(args[0], n))  # consumed once by the for loop that asked for it
             if f == "enumerate":
                 start = 0
                 if len(args) > 1:
